@@ -182,13 +182,36 @@ fn gen_curve<G: AffineRepr + RefRun>(curve: &str) -> Vec<Fixture> {
 
 #[derive(Clone, Debug, Serialize, Deserialize)]
 pub enum Case {
+    /// generator tables and Pedersen bases against the digests recorded from the reference revision
+    Digests { curve: String },
     Fixture { curve: String, index: usize },
     Live { curve: String, seed: u64, cfg: GenCfg },
+}
+
+fn verif_dir() -> std::path::PathBuf {
+    std::path::PathBuf::from(std::env::var("VP_VERIF_DIR").unwrap_or_else(|_| "/verif".into()))
 }
 
 fn run_case<G: AffineRepr + RefRun>(env: &Env<G>, fixtures: &[Fixture], c: &Case) -> CaseOut {
     let mut o = CaseOut::new();
     match c {
+        Case::Digests { curve } => {
+            o.evals = 0;
+            let pinned: Value = std::fs::read_to_string(verif_dir().join("fixtures").join("generator_digests.json")).ok().and_then(|s| serde_json::from_str(&s).ok()).unwrap_or(json!({}));
+            for (cap, parties) in [(16usize, 1usize), (64, 2), (128, 1)] {
+                o.evals += 1;
+                o.count("comparisons", 1);
+                o.count("programs", 1);
+                let key = format!("{}:{}x{}", curve, cap, parties);
+                let here = crate::checks::c12::digest::<G>(cap, parties);
+                match pinned.get(&key).and_then(|v| v.as_str()) {
+                    Some(p) if p == here => o.count("generator/Pedersen digests equal to recorded", 1),
+                    Some(p) => o.violate("generators-differ-from-recorded", format!("digest of the {} x {} generator table and Pedersen bases is {} but {} was recorded from the reference revision", cap, parties, here, p), json!({"key": key})),
+                    None => o.inconclusive = Some(format!("no recorded digest for {}", key)),
+                }
+                o.sig(format!("{}|digest|{}x{}", curve, cap, parties));
+            }
+        }
         Case::Fixture { index, .. } => {
             let fx = match fixtures.get(*index) {
                 Some(f) => f,
@@ -249,9 +272,36 @@ fn run_case<G: AffineRepr + RefRun>(env: &Env<G>, fixtures: &[Fixture], c: &Case
             // a fresh proof from the recorded seed reproduces the recorded bytes (generators, bases, layout, draws)
             let po = prove::<G>(env, &fx.program, &[], &env.bp, fx.rng_seed);
             o.count("comparisons", 1);
+            // (the property pins commitments, generators, layout and the schedule, not the prover's use of
+            // its randomness: byte-identity of the fresh proof is recorded, only the rest is asserted)
             match po.proof.as_ref().ok().and_then(|p| p.to_bytes().ok()) {
-                Some(b) if hex(&b) == fx.proof && po.vs.iter().map(|v| hex(&enc(v))).collect::<Vec<_>>() == fx.commitments => o.count("fresh proofs byte-identical to recorded", 1),
-                Some(_) => o.violate("fresh-proof-differs-from-recorded", format!("fixture '{}': proving with the recorded seed no longer reproduces the recorded proof bytes", fx.name), ctxj("reprove")),
+                Some(b) => {
+                    if po.vs.iter().map(|v| hex(&enc(v))).collect::<Vec<_>>() != fx.commitments {
+                        o.violate("commitments-differ-from-recorded", format!("fixture '{}': commitments to the recorded values and blindings differ from the recorded ones (Pedersen bases not reproduced)", fx.name), ctxj("commit"));
+                    }
+                    if hex(&b) == fx.proof {
+                        o.count("fresh proofs byte-identical to recorded", 1);
+                    } else {
+                        o.count("note: fresh proof from the recorded seed differs in bytes from the recorded one", 1);
+                    }
+                    if b.len() * 2 != fx.proof.len() {
+                        o.violate("layout-differs-from-recorded", format!("fixture '{}': a fresh proof has {} bytes, the recorded one {}", fx.name, b.len(), fx.proof.len() / 2), ctxj("layout"));
+                    }
+                    // the fresh proof against the recorded schedule (structure) and the reference verifier
+                    if let Some(p) = po.proof.as_ref().ok() {
+                        let vo2 = crate::interp::cur::verify_program::<G>(&fx.program, &po.vs, p, &env.pc, &env.bp);
+                        let s2 = sched(&main_shapes(&vo2.log));
+                        let same_struct = s2.len() == fx.schedule.len() && s2.iter().zip(fx.schedule.iter()).all(|(a, b)| a.kind == b.kind && a.label == b.label && a.len == b.len);
+                        if !same_struct {
+                            o.violate("fresh-schedule-differs-from-recorded", format!("fixture '{}': verifying a fresh proof follows a transcript schedule different from the recorded one", fx.name), ctxj("schedule"));
+                        }
+                        let cvs: Vec<Vec<u8>> = po.vs.iter().map(enc).collect();
+                        match G::ref_verify(&fx.program, &cvs, &b, 64) {
+                            Some((true, _)) => o.count("fresh proofs accepted by the reference revision", 1),
+                            _ => o.violate("reference-rejects-fresh-proof", format!("fixture '{}': the reference revision does not accept a fresh proof of the recorded statement", fx.name), ctxj("cross")),
+                        }
+                    }
+                }
                 None => o.violate("fresh-proof-failed", format!("fixture '{}': proving failed", fx.name), ctxj("reprove")),
             }
             o.sig(format!("{}|fixture|{}", fx.curve, fx.name));
@@ -275,14 +325,21 @@ fn run_case<G: AffineRepr + RefRun>(env: &Env<G>, fixtures: &[Fixture], c: &Case
                     if cvs != rvs {
                         o.violate("commitments-differ-from-reference", "commitments differ from the reference revision's for the same inputs", ctxj("commitments"));
                     }
-                    if cb != rb {
-                        o.violate("proof-differs-from-reference", "proof bytes differ from the reference revision's for the same program, witness and randomness", ctxj("bytes"));
+                    let same_bytes = cb == rb;
+                    if !same_bytes {
+                        // not demanded by the property (the prover may use its randomness differently)
+                        o.count("note: live proof bytes differ from the reference revision's (same seed)", 1);
+                        if cb.len() != rb.len() {
+                            o.violate("layout-differs-from-reference", format!("encoded proof has {} bytes, the reference revision's {}", cb.len(), rb.len()), ctxj("layout"));
+                        }
                     } else {
                         o.count("live proofs byte-identical to reference revision", 1);
                     }
+                    let strip = |v: &[Shape]| -> Vec<(&'static str, Vec<u8>, usize)> { v.iter().map(|s| (s.kind, s.label.clone(), s.data.len())).collect() };
                     let cshapes = main_shapes(&po.log);
                     o.count("comparisons", 1);
-                    if cshapes != rshapes {
+                    let differs = if same_bytes { cshapes != rshapes } else { strip(&cshapes) != strip(&rshapes) };
+                    if differs {
                         let pos = cshapes.iter().zip(rshapes.iter()).position(|(a, b)| a != b).unwrap_or(cshapes.len().min(rshapes.len()));
                         o.violate("prover-schedule-differs-from-reference", format!("prover transcript operations differ from the reference revision's at event {} ({:?} vs {:?})", pos, cshapes.get(pos).map(|s| (s.kind, crate::mon::lbl(&s.label), s.data.len())), rshapes.get(pos).map(|s| (s.kind, crate::mon::lbl(&s.label), s.data.len()))), ctxj("schedule"));
                     } else {
@@ -297,6 +354,7 @@ fn run_case<G: AffineRepr + RefRun>(env: &Env<G>, fixtures: &[Fixture], c: &Case
                         Some((true, rs)) => {
                             o.count("current proofs accepted by reference verifier", 1);
                             if rs != main_shapes(&vo.log) {
+                                // same input on both sides: payloads are comparable
                                 o.violate("verifier-schedule-differs-from-reference", "verifier transcript operations differ from the reference revision's", ctxj("vschedule"));
                             } else {
                                 o.count("live verifier schedules equal", 1);
@@ -342,6 +400,7 @@ fn run_curve<G: AffineRepr + RefRun>(ctx: &Ctx, curve: &'static str, only: Optio
                 a.inconclusive.push(format!("fixture file for {} missing or short ({} fixtures)", curve, fixtures.len()));
                 return a;
             }
+            cs.push(Case::Digests { curve: curve.into() });
             for i in 0..fixtures.len() {
                 cs.push(Case::Fixture { curve: curve.into(), index: i });
             }
@@ -369,7 +428,7 @@ pub fn run(ctx: &Ctx) -> i32 {
             }
         };
         let curve = match &c {
-            Case::Fixture { curve, .. } | Case::Live { curve, .. } => curve.clone(),
+            Case::Fixture { curve, .. } | Case::Live { curve, .. } | Case::Digests { curve } => curve.clone(),
         };
         let cu = CURVES.iter().find(|x| **x == curve).copied().unwrap_or("secq256k1");
         crate::on_curve!(cu, G => agg.merge(run_curve::<G>(ctx, cu, Some(&c))));
